@@ -307,6 +307,26 @@ type rng struct {
 	d      *mmap.Data
 	file   string
 	step   int // global step at which the range was unmapped
+	seq    int // creation order within the current execution
+}
+
+var mapSeq int
+
+// MapInfo describes the mapping an address lies in: its creation index within the current
+// execution (pointer values differ between executions, creation order does not), the
+// offset, and whether it has been unmapped.
+func MapInfo(addr uintptr) (seq int, off uint32, isDead, ok bool) {
+	for _, r := range live {
+		if addr >= r.lo && addr < r.hi {
+			return r.seq, uint32(addr - r.lo), false, true
+		}
+	}
+	for _, r := range dead {
+		if addr >= r.lo && addr < r.hi {
+			return r.seq, uint32(addr - r.lo), true, true
+		}
+	}
+	return 0, 0, false, false
 }
 
 // Locate maps an address inside a (live or poisoned) file mapping to the
@@ -355,7 +375,8 @@ func Mmap(f *os.File) (*mmap.Data, error) {
 	if err == nil && len(d.Data) > 0 {
 		lo := uintptr(unsafe.Pointer(&d.Data[0]))
 		mu.Lock()
-		live = append(live, rng{lo: lo, hi: lo + uintptr(len(d.Data)), d: d, file: f.Name()})
+		mapSeq++
+		live = append(live, rng{lo: lo, hi: lo + uintptr(len(d.Data)), d: d, file: f.Name(), seq: mapSeq})
 		mu.Unlock()
 		if sched.Active() {
 			Maps++
@@ -374,9 +395,11 @@ func Munmap(d *mmap.Data) error {
 	lo := uintptr(unsafe.Pointer(&d.Data[0]))
 	mu.Lock()
 	file := ""
+	seq := 0
 	for i, r := range live {
 		if r.lo == lo {
 			file = r.file
+			seq = r.seq
 			live = append(live[:i], live[i+1:]...)
 			break
 		}
@@ -385,7 +408,7 @@ func Munmap(d *mmap.Data) error {
 		mu.Unlock()
 		return mmap.Munmap(d)
 	}
-	dead = append(dead, rng{lo: lo, hi: lo + uintptr(len(d.Data)), by: sched.CallerSite(1), d: &mmap.Data{Data: d.Data}, file: file, step: sched.StepNow()})
+	dead = append(dead, rng{lo: lo, hi: lo + uintptr(len(d.Data)), by: sched.CallerSite(1), d: &mmap.Data{Data: d.Data}, file: file, step: sched.StepNow(), seq: seq})
 	mu.Unlock()
 	Unmaps++
 	return nil
@@ -418,6 +441,7 @@ func ReleaseDead() {
 		mmap.Munmap(r.d)
 	}
 	live = live[:0]
+	mapSeq = 0
 }
 
 // IsMapped reports whether addr lies in a live or poisoned file mapping.
